@@ -18,8 +18,19 @@ ENC_OK = sockrun.ENC_OK if hasattr(sockrun, "ENC_OK") else 0
 def scripts(rng: random.Random, n: int):
     for _ in range(n):
         s = [("open",), ("adv", 1)]
-        mode = rng.randrange(6)
-        if mode >= 4:
+        mode = rng.randrange(9)
+        if mode == 8:
+            # close() while another task sends (the send lands after the client closed its transport, before close()
+            # returned): it must be refused as not-open and nothing of it may ever be written, also after a re-open
+            k, pol = rng.choice([0, 1, 4]), rng.choice([0, 1, 3])
+            s.append(("sendclose", k, pol))
+            s += [("close",), ("adv", 5), ("open",), ("adv", 5), ("send", rng.choice([0, 1, 4]), 0), ("adv", 50)]
+        elif mode >= 6:
+            # a transient write failure on an idempotent command; while the client tears the link down another task
+            # sends: both must be on the wire after the reconnection, the failed one first
+            k1, k2 = rng.choice([0, 1, 4]), rng.choice([0, 1, 4])
+            s += [("sendclose", k2, rng.choice([0, 3])), ("failw",), ("send", k1, 0), ("adv", 5), ("adv", 50), ("send", rng.choice([0, 1, 4]), 0), ("adv", 50)]
+        elif mode >= 4:
             # a send from another task lands in the teardown window (the client has called close() on its
             # transport and is waiting for it); what tears the link down varies
             k, pol = rng.choice([0, 1, 4]), rng.choice([0, 0, 1, 3])
@@ -79,10 +90,24 @@ def monitor(gen: int, script, out, pid0: int) -> list[str]:
             pending_close = (st[1], st[2])
             continue
         if pending_close is not None and any(e[0] == "hooksend" for e in evs):
-            # the hooked send ran when the client closed its transport: accepted before this step's own sends
-            sends = [pending_close] + sends
-            must_write_from = order
-            pending_close = None
+            # the hooked send ran when the client closed its transport
+            if st[0] == "close":
+                # ... inside close(): it must have been refused (not-open) and holds nothing
+                if ("senderr", 2) not in [tuple(e) for e in evs]:
+                    bad.append(f"step {idx}: a send() issued while close() was in progress was not refused as not-open")
+                    sends = [pending_close] + sends          # it was accepted: its frame would carry the next packet id
+                elif cls[pending_close[0]] != 1:
+                    next_pid = (next_pid + 1) % 256          # a refused send has taken a packet id (header built first)
+                pending_close = None
+            elif st[0] == "send" and any(e[0] == "wfail" for e in evs):
+                # ... after this step's own send failed on the wire: this step's send was accepted first
+                sends = sends + [pending_close]
+                must_write_from = order
+                pending_close = None
+            else:
+                sends = [pending_close] + sends
+                must_write_from = order
+                pending_close = None
         for k, pol in sends:
             if cls[k] == 1:          # no encoder: NotImplementedError before a packet id is taken
                 continue
@@ -131,11 +156,12 @@ def run(ck: common.Check, prop: str, tier: str) -> None:
             ck.count()
             bad = monitor(gen, script, out, pid0)
             if prop == "C16":
-                bad = [b for b in bad if "lifetime ended" in b]           # expired entries are never transmitted
+                # expired entries are never transmitted; a send on a closing client is refused and holds nothing
+                bad = [b for b in bad if "lifetime ended" in b or "not-open" in b or "no accepted send produced" in b]
             elif prop == "C01":
                 bad = [b for b in bad if "lifetime ended" not in b]
             else:
-                bad = [b for b in bad if "lifetime ended" in b or "times (no write fault" in b]
+                bad = [b for b in bad if "lifetime ended" in b or "times (no write fault" in b or "teardown window" in b]
             if bad:
                 ck.violation("; ".join(bad[:3]),
                              {"kind": "socket-script-backpressure", "gen": gen, "script": [list(x) for x in script],
